@@ -42,6 +42,7 @@ type Config struct {
 	NIDs      int     // size of the id universe (0 = MaxID)
 	PNoData   float64 // share of inserted points that carry no data bytes at all
 	NoUpdates bool    // write histories of insert and delete batches only
+	RepeatUpd bool    // update batches may name a point twice
 	VecRange  int     // vector components are drawn from -VecRange..VecRange (0 = 3)
 	VecLine   bool    // components after the first are drawn from 0..6 only
 	Quantised bool    // a trained quantiser decides the distances: only pair comparisons are judged
@@ -179,6 +180,8 @@ type GenDoc struct {
 type Gen struct {
 	R   *rand.Rand
 	Cfg Config
+	// ForceDelete: the next update document removes every indexed field
+	ForceDelete bool
 	// Last holds the real values of the indexed properties of the document
 	// generated last (by property name)
 	Last map[string]any
@@ -392,7 +395,7 @@ func (g *Gen) DocFrom(forUpdate bool, pInc float64, cur map[string]any) GenDoc {
 			continue
 		}
 		props := byFld[f]
-		if forUpdate && g.R.Float64() < 0.2 {
+		if forUpdate && (g.ForceDelete || g.R.Float64() < 0.2) {
 			real[f] = "_delete"
 			get(f).del = true
 			continue
